@@ -12,6 +12,7 @@ import common  # noqa
 REGISTRY = {
     'C01': ('checks.values_checks', 'check_c01', 'other'),
     'C02': ('checks.strings', 'check_c02', 'model_checking'),
+    'C07': ('checks.stdlib', 'check_c07', 'exploration'),
     'C08': ('checks.values_checks', 'check_c08', 'other'),
     'C04': ('checks.layout', 'check_c04', 'model_checking'),
     'C05': ('checks.layout', 'check_c05', 'model_checking'),
